@@ -116,6 +116,21 @@ func seqBody(s *simrt.Sim) {
 	}
 
 	nops := 6 + s.Choose(25)
+	if s.Choose(30) == 29 {
+		// rarely a bulk of 300 entries below one view's realm: iterations with an early stop, DeletePrefix and Clear then
+		// work on many entries at once (whatever a store does in portions has to look like one ordered map all the same)
+		bv := w.views[s.Choose(len(w.views))]
+		for i := 0; i < 300; i++ {
+			k := bv.realm + fmt.Sprintf("~%03d", i)
+			if err := base.Set([]byte(k), []byte("b")); err != nil {
+				s.Fail("contract", "Set-error", "initial Set failed: %v", err)
+			}
+			w.model[k] = "b"
+		}
+		s.Probe("bulk-of-300-entries")
+		s.Logf("300 bulk entries %q000..299", bv.realm+"~")
+		nops = 4 + s.Choose(6)
+	}
 	closeAt := -1 // never
 	switch s.Choose(4) {
 	case 1:
@@ -500,6 +515,7 @@ func (w *seqWorld) iterate(v *view, keysOnly bool) {
 	scrib := s.Choose(3) == 1
 	name := map[bool]string{false: "Iterate", true: "IterateKeys"}[keysOnly]
 	var got []kvp
+	var kept [][2][]byte // what the consumer was handed, looked at again after the iteration
 	calls := 0
 	stopped := false
 	visit := func(k, val []byte) bool {
@@ -508,6 +524,7 @@ func (w *seqWorld) iterate(v *view, keysOnly bool) {
 			return false
 		}
 		got = append(got, kvp{string(k), string(val)})
+		kept = append(kept, [2][]byte{k, val})
 		if scrib {
 			scribble(k)
 			scribble(val)
@@ -530,6 +547,14 @@ func (w *seqWorld) iterate(v *view, keysOnly bool) {
 			s.Fail("closed", name+"-after-close", "%s on %s after Close called the consumer %d times", name, v.name, calls)
 		}
 		return
+	}
+	if !scrib {
+		// what a read hands out is a private copy: it still reads the same when the iteration is over
+		for i, kv := range kept {
+			if string(kv[0]) != got[i].k || string(kv[1]) != got[i].v {
+				s.Fail("contract", name+"-handed-out-memory-changed-later", "%s.%s(%q): entry %d was reported as %q=%q; after the iteration the slices the consumer was handed read %q=%q", v.name, name, p, i, got[i].k, got[i].v, kv[0], kv[1])
+			}
+		}
 	}
 	if calls > len(got) {
 		s.Fail("contract", name+"-continued-after-stop", "%s.%s(%q): the consumer returned false after %d entries and was called %d times", v.name, name, p, len(got), calls)
